@@ -250,6 +250,7 @@ func (w *World) oracleRelayer(bi *BlockInfo) {
 		w.violate("C02", "accepted-flag-dropped-without-election", "accepted-flag-dropped", "height %d: the proposer-accepted flag went true -> false within epoch %d", b.Height, prel.Epoch)
 	}
 
+	rs.EverProposer[prel.Proposer] = true
 	// C16: elections and group shape
 	w.Stats.OracleEvals["C16"]++
 	crel := cur.Relayer.Relayer
